@@ -362,3 +362,20 @@ def _empirical_semantics(ctx, rid, repo):
             ctx.holds(rid, f"{CALC}::ToyCalculator.pvalues [interpreted]", "5 observed values from below to beyond both samples: (CLsb, CLb) are the tail fractions, CLs their ratio")
     except errs as e:
         ctx.unrecognised(rid, tcc, "ToyCalculator.pvalues [interpreted]", f"not interpretable: {type(e).__name__}: {e}")
+
+
+def accepted_statistic_names(repo, spellings=("qtilde", "q", "q0", "Q0", "Q", "QTILDE", "Qtilde", " q0", "q0 ")):
+    """{spelling: 'q0' | 'q' | 'qtilde'} for the spellings the real get_test_stat (interpreted) accepts; the others are refused"""
+    gts = repo.func("src/pyhf/infer/utils.py", "get_test_stat")
+    canon = {"q0": "q0", "qmu": "q", "qmu_tilde": "qtilde"}
+    out = {}
+    for sp_ in spellings:
+        try:
+            f_ = Interp({"name": sp_, **{n_: Obj(n_) for n_ in canon}, "InvalidTestStatistic": Obj("InvalidTestStatistic")}, {}, {}).run(A.strip_docstring(gts.node.body))
+        except RaisedInFragment:
+            continue
+        if isinstance(f_, Obj) and f_.name in canon:
+            out[sp_] = canon[f_.name]
+        else:
+            raise Undecided(f"get_test_stat({sp_!r}) returns {getattr(f_, 'name', f_)!r}")
+    return out
